@@ -122,3 +122,13 @@ Qed.
 
 Lemma adp_get_encoding_type_hd e data : adp_get_encoding_type (e :: data) = e.
 Proof. reflexivity. Qed.
+
+(* ---------- the enum values and limits of the headers (regenerated from
+   /repo/src on every run into coq/gen/Consts.v) are the ones the model uses ---------- *)
+Require Import VVgen.Consts.
+Lemma adp_header_constants :
+  ADP_DELTA = VARINT_ADAPTIVE_DELTA /\ ADP_FOR = VARINT_ADAPTIVE_FOR /\ ADP_PFOR = VARINT_ADAPTIVE_PFOR /\
+  ADP_DICT = VARINT_ADAPTIVE_DICT /\ ADP_BITMAP = VARINT_ADAPTIVE_BITMAP /\
+  ADP_TAGGED = VARINT_ADAPTIVE_TAGGED /\ ADP_GROUP = VARINT_ADAPTIVE_GROUP /\
+  65536 = VARINT_BITMAP_MAX_VALUE /\ 95 = VARINT_PFOR_THRESHOLD_95.
+Proof. repeat split; reflexivity. Qed.
